@@ -423,7 +423,7 @@ package parsers
 //@ pred pOK(c *ExpressionParser) = c != nil && resOK(c) && resDepth(c) >= 0
 //@ func (c *ExpressionParser) Clear
 //@   requires c != nil
-//@   ensures[C03] len(c.originalTokens) == 0 && len(c.initialTokens) == 0 && len(c.resultTokens) == 0 && len(c.variableNames) == 0 && c.currentTokenIndex == 0
+//@   ensures[C03,C05] len(c.originalTokens) == 0 && len(c.initialTokens) == 0 && len(c.resultTokens) == 0 && len(c.variableNames) == 0 && c.currentTokenIndex == 0 && c.expression == ""
 //@   ensures[C03] fresh(c.initialTokens) && fresh(c.resultTokens) && arr(c.resultTokens) != arr(c.initialTokens) && pOK(c)
 //@   assigns c.expression, c.originalTokens, c.initialTokens, c.resultTokens, c.currentTokenIndex, c.variableNames
 //@   nopanic
